@@ -55,4 +55,22 @@ PROPS = {
         ],
         "explanation": "NF (formal attributes single-valued and typed, other values normalised) is the class invariant of ProvRecord: established by the constructors, preserved by every writer of _attributes (add_attributes with its loop invariant, add_asserted_type, set_time), on normal and on exceptional exits.",
     },
+    "C18": {
+        "level": "proof",
+        "driver": "replay/c18.py",
+        "always_native": True,
+        "timeout": 40.0,
+        "trusted_base": TRUSTED_SOLVERS + ["recursion equations of the order-preserving filters filtid/filtcls and the frame lemma of filtid (induction on the list, not mechanised)"],
+        "assumptions": A_COMMON + [
+            "the index _id_map is a dict keyed by QualifiedName (hash/== by URI); absent entries of the defaultdict read as empty lists",
+            "get_records(cls) is stated for a single class object of the package (a tuple of classes is not covered); its result is a lazy filter object and the postcondition is about list(result)",
+            "`records` returns list(self._records): independence of the returned list is the ownership discipline checked by the syntactic scan scan:no-leak:_records (value semantics of owned containers)",
+            "the URI a spelling denotes is what valid_qualified_name resolves it to (C03 contracts); a full URI denotes itself when a namespace of the container can compact it",
+        ],
+        "scans": {"writers": {"_records": ["prov.model.ProvBundle.__init__", "prov.model.ProvBundle._add_record"],
+                              "_id_map": ["prov.model.ProvBundle.__init__", "prov.model.ProvBundle._add_record"]},
+                  "leaks": {"_records": [["prov.model.ProvDocument.flattened", "passed to itertools.chain"]],
+                            "_id_map": [["prov.model.ProvBundle.get_record", "element returned"]]}},
+        "explanation": "Invariant Idx (every index entry is the order-preserving filter of the record list by identifier URI) is preserved by the only writer _add_record; get_record/get_records/records are verified against it for every spelling of the identifier; new_record/add_record are the only callers of _add_record (single-writer scan).",
+    },
 }
